@@ -623,7 +623,7 @@ func ConvertTypedValueToYANGType(schemaElem *sdcpb.SchemaElem, tv *sdcpb.TypedVa
 			}, nil
 		}
 	case schemaElem.GetLeaflist() != nil:
-		switch tv.Value.(type) {
+		switch tv.GetValue().(type) {
 		case *sdcpb.TypedValue_LeaflistVal:
 			return tv, nil
 		}
